@@ -8,8 +8,10 @@ mkdir -p .work/bin evidence replay
 (cd tools/extract && go build -o ../../.work/bin/extract .)
 ./.work/bin/extract -repo "${VERIF_REPO:-/repo}" -out lean/GripGen -facts .work/facts.json || true
 # Lean: models, generated tables, proofs, driver
-(cd lean && lake build Grip GripGen GripProofs gripdriver)
+python3 tools/gen_main.py
+(cd lean && lake build && lake build gripdriver)
 # Go harness against /repo (also warms the Go build cache)
 cp "${VERIF_REPO:-/repo}/go.sum" go/harness/go.sum
+sed "s#@REPO@#${VERIF_REPO:-/repo}#" go/harness/go.mod.in > go/harness/go.mod
 (cd go/harness && go build -tags verif -o ../../.work/bin/hx ./cmd/hx)
 echo setup ok
